@@ -74,12 +74,48 @@ def cases(seed, tier):
             # make sure the failure is not handled
             T['edges'] = [e for e in T['edges']
                           if e['clause'] == 'on-success']
+        handled = False
+        if kind == 3 and prng.random() < 0.6:
+            # the failure is routed to a handler that fails the workflow
+            # explicitly: the failed attempt fired a transition, the new
+            # attempt may have none.  (No equality with a fresh run here:
+            # the handler exists only in the history with the failure.)
+            for T in fail:
+                if T.get('with_items') is not None or T.get('workflow'):
+                    continue
+                Q = [Q for Q in gdirect.all_programs(P)
+                     if T in Q['tasks']][0]
+                hn = 'h' + T['name']
+                T['edges'].append({'clause': 'on-error', 'to': hn,
+                                   'guard': None, 'form': 'list'})
+                if prng.random() < 0.5:
+                    # the handler fails the workflow with the command
+                    handled = 'fail-command'
+                    Q['tasks'].append({
+                        'name': hn, 'async': False, 'publish': {},
+                        'join': None, 'reads': [],
+                        'edges': [{'clause': 'on-success', 'to': 'fail',
+                                   'guard': None, 'form': 'list'}]})
+                else:
+                    # the handler fails itself: the workflow ends ERROR
+                    # when everything else has finished
+                    handled = handled or 'handler-fails'
+                    Q['tasks'].append({
+                        'name': hn, 'async': False, 'publish': {},
+                        'join': None, 'reads': [], 'edges': []})
+                    outcomes.append({'t': hn,
+                                     'outcome': ['err', 'E-' + hn]})
+                if prng.random() < 0.5:
+                    # ... and the new attempt has no successors at all
+                    T['edges'] = [e for e in T['edges']
+                                  if e['clause'] == 'on-error']
+                handled = handled or True
         ops = []
         for _ in range(prng.randint(1, 3)):
             ops.append({'op': prng.choice(['rerun', 'rerun', 'rerun-noreset',
                                            'skip']),
                         'new': prng.choice(['ok', 'ok', 'ok', 'err'])})
-        out.append({'program': P, 'outcomes': outcomes,
+        out.append({'program': P, 'outcomes': outcomes, 'handled': handled,
                     'det': gdirect.is_deterministic(P), 'ops': ops,
                     'strategy': {'name': prng.choice(['fifo', 'random',
                                                       'lifo']),
@@ -190,8 +226,14 @@ def run_case(case):
         res['inconclusive'] = run.inconclusive
         return res
     for v in run.violations:
-        res['violations'].append(dict(v, operations=[
-            {k: x for k, x in e.items() if k != 'h'} for e in state['log']]))
+        v = dict(v, operations=[
+            {k: x for k, x in e.items() if k != 'h'} for e in state['log']])
+        if case.get('handled') == 'fail-command':
+            # features the recorded finding is keyed by
+            v['rerun_after_fail_command'] = True
+            v['waiting_tasks'] = any(str(t).endswith(':WAITING')
+                                     for t in v.get('tasks') or [])
+        res['violations'].append(v)
     if not state['log']:
         res['sample'] = {'note': 'the generated run did not end in ERROR '
                                  'with a failed task'}
@@ -282,7 +324,26 @@ def run_case(case):
     # (2) equals the fresh run with the final outcomes from the start
     skipped = any(e['op'] == 'skip' for e in state['log'])
     res['monitor_evaluations']['rerun-equals-fresh'] += 1
-    if not skipped:
+    if case.get('handled'):
+        res['monitor_evaluations']['rerun-after-handled-failure'] = \
+            res['monitor_evaluations'].get('rerun-after-handled-failure',
+                                           0) + 1
+        # judged by the universal monitors (the run must reach a final
+        # state) and by the state of the rerun task
+        for e in state['log']:
+            if e['reply'] != 'ok' or e['op'] == 'skip':
+                continue
+            trow = run.rows['task'].get(e['task_id'])
+            later = [x for x in state['log'] if x['task_id'] == e['task_id']
+                     and x['seq'] > e['seq']]
+            if later:
+                continue
+            want = 'SUCCESS' if e['new'] == 'ok' else 'ERROR'
+            if trow['state'] != want:
+                viol('rerun-equals-fresh', 'rerun-task-final-state',
+                     'rerun of %s with new outcome %s: the task ends %s' % (
+                         e['task'], e['new'], trow['state']))
+    elif not skipped:
         fresh_case = dict(case)
         final = {}
         for r in reversed(state['rules']):
